@@ -327,7 +327,13 @@ func replayOnRealCode(p *Program, repo string, u *UnitResult, o *Obl) (bool, str
 		lhs = append(lhs, fmt.Sprintf("r%d", i))
 	}
 	var body strings.Builder
-	fmt.Fprintf(&body, "package %s\n\nimport (\n\t\"fmt\"\n\t\"math\"\n\t\"testing\"\n)\n\nvar _ = math.Pi\n\n", fn.Pkg.Pkg.Name())
+	extra := ""
+	for _, imp := range fn.Pkg.Pkg.Imports() {
+		if imp.Name() != "fmt" && imp.Name() != "math" && imp.Name() != "testing" && strings.Contains(call, imp.Name()+".") {
+			extra += fmt.Sprintf("\t%q\n", imp.Path())
+		}
+	}
+	fmt.Fprintf(&body, "package %s\n\nimport (\n\t\"fmt\"\n\t\"math\"\n\t\"testing\"\n%s)\n\nvar _ = math.Pi\n\n", fn.Pkg.Pkg.Name(), extra)
 	body.WriteString("func TestVerifReplay(t *testing.T) {\n\tdefer func() {\n\t\tif r := recover(); r != nil {\n\t\t\tfmt.Printf(\"VERIF-PANIC %v\\n\", r)\n\t\t}\n\t}()\n")
 	if nres > 0 {
 		fmt.Fprintf(&body, "\t%s := %s\n", strings.Join(lhs, ", "), call)
